@@ -4,6 +4,7 @@ import (
 	"fmt"
 	"go/token"
 	"go/types"
+	"os"
 
 	"golang.org/x/tools/go/ssa"
 
@@ -32,17 +33,29 @@ func (p *purity) pure(fn *ssa.Function, depth int) bool {
 	if m := p.memo[fn]; m != 0 {
 		return m == 1
 	}
+	// math and math/bits are pure whether or not their bodies were loaded (Float64bits reads through unsafe.Pointer)
+	if fn.Pkg != nil {
+		switch fn.Pkg.Pkg.Path() {
+		case "math", "math/bits":
+			return true
+		}
+	}
 	if fn.Blocks == nil {
-		// external: math and math/bits are pure
 		if fn.Pkg != nil {
 			switch fn.Pkg.Pkg.Path() {
 			case "math", "math/bits":
 				return true
 			}
 		}
+		if os.Getenv("S2LINT_DEBUG") != "" {
+			fmt.Fprintf(os.Stderr, "DEBUG impure: %s has no body\n", fn)
+		}
 		return false
 	}
 	if depth > 6 {
+		if os.Getenv("S2LINT_DEBUG") != "" {
+			fmt.Fprintf(os.Stderr, "DEBUG impure: %s depth\n", fn)
+		}
 		return false
 	}
 	p.memo[fn] = 2
@@ -55,9 +68,15 @@ func (p *purity) pure(fn *ssa.Function, depth int) bool {
 		case *ssa.Store:
 			// stores into the function's own locals are fine
 			if !localAddr(x.Addr) {
+				if os.Getenv("S2LINT_DEBUG") != "" {
+					fmt.Fprintf(os.Stderr, "DEBUG impure: %s because of store %v\n", fn, x)
+				}
 				ok = false
 			}
 		case *ssa.MapUpdate, *ssa.Send, *ssa.Go, *ssa.Defer, *ssa.Panic:
+			if os.Getenv("S2LINT_DEBUG") != "" {
+				fmt.Fprintf(os.Stderr, "DEBUG impure: %s because of %T\n", fn, x)
+			}
 			ok = false
 		case ssa.CallInstruction:
 			if _, isBuiltin := x.Common().Value.(*ssa.Builtin); isBuiltin {
@@ -65,12 +84,18 @@ func (p *purity) pure(fn *ssa.Function, depth int) bool {
 			}
 			callee := core.StaticCallee(x)
 			if callee == nil || !p.pure(callee, depth+1) {
+				if os.Getenv("S2LINT_DEBUG") != "" {
+					fmt.Fprintf(os.Stderr, "DEBUG impure: %s because of call %v (callee %v)\n", fn, x, callee)
+				}
 				ok = false
 			}
 		case *ssa.UnOp:
 			if x.Op == token.MUL && !localAddr(x.X) {
 				// reads of globals/heap make the result depend on state; package-level tables are immutable (R-GLOBAL), allow globals
 				if !globalAddr(x.X) {
+					if os.Getenv("S2LINT_DEBUG") != "" {
+						fmt.Fprintf(os.Stderr, "DEBUG impure: %s because of load %v\n", fn, x)
+					}
 					ok = false
 				}
 			}
@@ -132,8 +157,14 @@ func (p *purity) sameTree(a, b ssa.Value, depth int) bool {
 		return ok && x.Op == y.Op && p.sameTree(x.X, y.X, depth+1) && p.sameTree(x.Y, y.Y, depth+1)
 	case *ssa.UnOp:
 		y, ok := b.(*ssa.UnOp)
-		if !ok || x.Op != y.Op || x.Op == token.MUL || x.Op == token.ARROW {
+		if !ok || x.Op != y.Op || x.Op == token.ARROW {
 			return false
+		}
+		if x.Op == token.MUL {
+			// two loads of the same field path of a local that is written exactly once (a spilled parameter)
+			rx, px, okx := spillPath(x.X)
+			ry, py, oky := spillPath(y.X)
+			return okx && oky && rx == ry && px == py
 		}
 		return p.sameTree(x.X, y.X, depth+1)
 	case *ssa.Convert:
@@ -160,8 +191,109 @@ func (p *purity) sameTree(a, b ssa.Value, depth int) bool {
 	case *ssa.Extract:
 		y, ok := b.(*ssa.Extract)
 		return ok && x.Index == y.Index && p.sameTree(x.Tuple, y.Tuple, depth+1)
+	case *ssa.Field:
+		y, ok := b.(*ssa.Field)
+		return ok && x.Field == y.Field && p.sameTree(x.X, y.X, depth+1)
 	}
 	return false
+}
+
+// spillPath decodes addr as &local.f.g... where local is an Alloc with exactly one store to the whole variable
+// and no store through any of its field addresses (a parameter spilled to the stack and only read).
+func spillPath(addr ssa.Value) (ssa.Value, string, bool) {
+	path := ""
+	for {
+		switch x := addr.(type) {
+		case *ssa.FieldAddr:
+			path = fmt.Sprintf("%d.%s", x.Field, path)
+			addr = x.X
+			continue
+		case *ssa.Alloc:
+			if path == "" {
+				return nil, "", false
+			}
+			stores := 0
+			for _, r := range *x.Referrers() {
+				switch u := r.(type) {
+				case *ssa.Store:
+					if u.Addr == ssa.Value(x) {
+						stores++
+					}
+				case *ssa.FieldAddr:
+					if writtenThrough(u, 0) {
+						return nil, "", false
+					}
+				case *ssa.UnOp:
+				default:
+					return nil, "", false // address escapes (call argument, etc.)
+				}
+			}
+			return x, path, stores == 1
+		}
+		return nil, "", false
+	}
+}
+
+func writtenThrough(fa *ssa.FieldAddr, depth int) bool {
+	if depth > 4 {
+		return true
+	}
+	for _, r := range *fa.Referrers() {
+		switch u := r.(type) {
+		case *ssa.Store:
+			if u.Addr == ssa.Value(fa) {
+				return true
+			}
+		case *ssa.FieldAddr:
+			if writtenThrough(u, depth+1) {
+				return true
+			}
+		case *ssa.UnOp:
+		default:
+			return true
+		}
+	}
+	return false
+}
+
+// fieldBase returns the value a chain of Field projections (or a load of a field path of a read-only local)
+// starts from, and the chain itself.
+func fieldBase(v ssa.Value) (ssa.Value, string) {
+	if ld, ok := v.(*ssa.UnOp); ok && ld.Op == token.MUL {
+		if root, path, ok := spillPath(ld.X); ok {
+			return root, path
+		}
+	}
+	path := ""
+	for {
+		f, ok := v.(*ssa.Field)
+		if !ok {
+			return v, path
+		}
+		path = fmt.Sprintf("%d.%s", f.Field, path)
+		v = f.X
+	}
+}
+
+// siblingEvidence: fn also compares, with the same operator, some field of base with the same field of a
+// different value of the same type (a.X != b.X next to a.Z != a.Z).
+func siblingEvidence(fn *ssa.Function, op token.Token, base ssa.Value) bool {
+	found := false
+	core.AllInstrs(fn, func(in ssa.Instruction) {
+		bo, ok := in.(*ssa.BinOp)
+		if !ok || bo.Op != op {
+			return
+		}
+		bx, px := fieldBase(bo.X)
+		by, py := fieldBase(bo.Y)
+		if px == "" || px != py || bx == by {
+			return
+		}
+		if (bx == base || by == base) && types.Identical(bx.Type(), by.Type()) {
+			found = true
+		}
+	})
+	return found
 }
 
 func runSelfCmp(c *core.Ctx) []core.Obligation {
@@ -195,6 +327,14 @@ func runSelfCmp(c *core.Ctx) []core.Obligation {
 			}
 			if !p.sameTree(bo.X, bo.Y, 0) {
 				return
+			}
+			// x.f != x.f on a float is also the NaN-test idiom: report it only next to sibling comparisons x.g != y.g
+			if b, ok := bo.X.Type().Underlying().(*types.Basic); ok && b.Info()&types.IsFloat != 0 && (bo.Op == token.NEQ || bo.Op == token.EQL) {
+				if base, path := fieldBase(bo.X); path != "" {
+					if !siblingEvidence(fn, bo.Op, base) {
+						return
+					}
+				}
 			}
 			if bo.X == bo.Y {
 				if b, ok := bo.X.Type().Underlying().(*types.Basic); ok && b.Info()&types.IsFloat != 0 {
